@@ -20,7 +20,7 @@ RULE = ('align sweep: `align N` for N in 1..33 (thorough: also 64,100,128,255,25
 ASSUMPTIONS = ['per-line chunks come from the blob stream at asm.resolve_blobs (or fence labels), see DESIGN.md section 2']
 
 SMALL_N = list(range(1, 34))
-BIG_N = [64, 100, 128, 255, 256, 1000, 4096]
+BIG_N = [64, 100, 128, 255, 256, 257, 300, 512, 1000, 4096]
 
 
 def walk(acc, items, ex, compress, rcase):
@@ -204,7 +204,8 @@ def run_shard(sh, deadline):
 
 def plan(tier, seed):
     cases = []
-    ns = SMALL_N + (BIG_N if tier == 'thorough' else [64, 256])
+    # (alignments above 256 in the quick tier too: small integers are cached objects in CPython, larger ones are not)
+    ns = SMALL_N + (BIG_N if tier == 'thorough' else [64, 256, 257, 300, 512, 1000, 4096])
     for N in ns:
         shifts = range(N) if N <= 33 or tier == 'thorough' else [0, 1, N // 2, N - 1]
         for r in shifts:
